@@ -69,10 +69,23 @@ func (g *Gateway) newSubscriptionEntry(id string, ctx *planner.PlanningContext) 
 
 	queryer := rootQueryers[rootStep.URL]
 
+	// the client's variables, and the declared default of each variable the client gives no value for
+	// (the sub-query declares no defaults)
+	variables := ctx.Request.Variables
+	if len(rootStep.VariableDefaults) > 0 {
+		variables = make(map[string]interface{}, len(ctx.Request.Variables)+len(rootStep.VariableDefaults))
+		for name, value := range rootStep.VariableDefaults {
+			variables[name] = value
+		}
+		for name, value := range ctx.Request.Variables {
+			variables[name] = value
+		}
+	}
+
 	rootRequest := &requests.Request{
 		Original:      ctx.Request.Original,
 		Query:         rootStep.QueryString,
-		Variables:     ctx.Request.Variables,
+		Variables:     variables,
 		OperationName: ctx.Request.OperationName,
 	}
 	if err := queryer.Subscribe(rootRequest, subEntry.queryerCloseCh, subEntry.respCh); err != nil {
